@@ -107,6 +107,14 @@ Theorem C09_norm_shape_text : forall parent r c, parent_ok parent -> in_grammar 
 Proof. exact norm_shape_text_lemma. Qed.
 Print Assumptions C09_norm_shape_text.
 
+(* no fragment, from the input side: the answer is the answer for the reference without its
+   fragment, however many '#' the fragment contains (a fragment-only reference excepted: without
+   its fragment it is the empty reference, which is refused) *)
+Theorem C09_norm_fragment_irrelevant : forall parent r, is_frag_only r = false ->
+  normalize parent r = normalize parent (drop_frag r).
+Proof. exact norm_fragment_irrelevant_lemma. Qed.
+Print Assumptions C09_norm_fragment_irrelevant.
+
 (* what NormalizeURL leaves in the object is a canonical state *)
 Theorem C09_norm_state_canonical : forall parent r w, norm_state parent r = Ok w -> is_state w.
 Proof. exact (norm_state_is_state false). Qed.
@@ -121,6 +129,12 @@ Theorem C09_resolve_scheme_relative : forall b a p q f,
   norm_state (Some b) (RSchemeRel a p q f) = whatwg (Url (u_scheme b) a p q f).
 Proof. exact resolve_scheme_rel_lemma. Qed.
 Print Assumptions C09_resolve_scheme_relative.
+
+(* RFC 3986 5.2.2: a reference with an authority but no scheme takes the parent's scheme *)
+Theorem C09_scheme_relative_takes_parent_scheme : forall b a p q f w, is_state b ->
+  norm_state (Some b) (RSchemeRel a p q f) = Ok w -> u_scheme w = u_scheme b.
+Proof. exact scheme_relative_takes_parent_scheme_lemma. Qed.
+Print Assumptions C09_scheme_relative_takes_parent_scheme.
 
 Theorem C09_resolve_path_absolute : forall b p q f, is_state b ->
   norm_state (Some b) (RPathAbs p q f)
